@@ -22,11 +22,32 @@ type Case struct {
 	Pauses    []int      `json:"pauses"`
 	Both      bool       `json:"both"`                // also run burst and paced and compare (in-order cases)
 	HookSeed  uint64     `json:"hook_seed,omitempty"` // seed of the engine's build-tag-guarded perturbation points (0 = off)
+	LongBurst bool       `json:"long_burst,omitempty"`
+}
+
+// genLongBurst: 120-500 rows with strictly increasing timestamps over 1-2 keys, most of them further than the timeout
+// from their predecessor (so nearly every row closes a session), fed back to back and followed by silence.
+func genLongBurst(t *rapid.T) Case {
+	c := Case{TimeoutMs: rapid.SampledFrom([]int64{100, 500}).Draw(t, "timeout"), LongBurst: true}
+	T := c.TimeoutMs
+	nk := rapid.IntRange(1, 2).Draw(t, "keys")
+	n := rapid.IntRange(120, 500).Draw(t, "n")
+	ts := et.Base
+	for i := 0; i < n; i++ {
+		ts += rapid.SampledFrom([]int64{T + 1, T + 1, 2 * T, T / 2, 3 * T}).Draw(t, "gap")
+		c.Events = append(c.Events, et.Event{ID: i, TS: ts, G: fmt.Sprintf("k%d", 1+i%nk), V: 1})
+		c.Pauses = append(c.Pauses, 0)
+	}
+	c.HookSeed = hookSeed(t)
+	return c
 }
 
 func genCase(t *rapid.T) Case {
+	if x := rapid.IntRange(0, 39).Draw(t, "long"); x == 17 || x == 29 {
+		return genLongBurst(t)
+	}
 	c := Case{TimeoutMs: rapid.SampledFrom([]int64{500, 1000, 2000, 5000}).Draw(t, "timeout")}
-	c.OOOMs = rapid.SampledFrom([]int64{0, 0, 1000}).Draw(t, "ooo")
+	c.OOOMs = rapid.SampledFrom([]int64{0, 0, 1000, c.TimeoutMs / 2, 2 * c.TimeoutMs, 3 * c.TimeoutMs}).Draw(t, "ooo")
 	nk := rapid.IntRange(1, 3).Draw(t, "keys")
 	T := c.TimeoutMs
 	gaps := []int64{1, T / 2, T - 1, T, T + 1, 3 * T, 0, T / 4}
@@ -51,7 +72,24 @@ func genCase(t *rapid.T) Case {
 	}
 	sort.SliceStable(evs, func(i, j int) bool { return evs[i].TS < evs[j].TS })
 	reordered := false
-	if c.OOOMs > 0 {
+	if c.OOOMs > 0 && rapid.Bool().Draw(t, "jittersort") {
+		// arrival order = order of ts + jitter with jitter in [0, OOO]: any displacement that keeps every row on time
+		// (a row that arrives after a later one is at most OOO older than it), not only swaps of neighbours
+		key := make(map[int]int64, len(evs))
+		for _, e := range evs {
+			j := rapid.Int64Range(0, c.OOOMs).Draw(t, "jit")
+			switch rapid.IntRange(0, 2).Draw(t, "jitkind") { // the extremes let a whole earlier stretch arrive after a later row
+			case 0:
+				j = 0
+			case 1:
+				j = c.OOOMs
+			}
+			key[e.ID] = e.TS + j
+		}
+		before := fmt.Sprint(evs)
+		sort.SliceStable(evs, func(i, j int) bool { return key[evs[i].ID] < key[evs[j].ID] })
+		reordered = fmt.Sprint(evs) != before
+	} else if c.OOOMs > 0 {
 		for i := 0; i+1 < len(evs); i++ {
 			if evs[i+1].TS-evs[i].TS <= c.OOOMs && evs[i+1].TS != evs[i].TS && rapid.IntRange(0, 3).Draw(t, "swap") == 0 {
 				evs[i], evs[i+1] = evs[i+1], evs[i]
@@ -273,6 +311,9 @@ func runCase(c Case) (res pbt.Result) {
 	if reordered {
 		res.Class("reordered")
 	}
+	if c.LongBurst {
+		res.Class("long-burst")
+	}
 	res.NonTrivial = gapAbove || reordered
 	return
 }
@@ -303,7 +344,7 @@ func features(c Case) []string {
 
 var spec = pbt.Spec[Case]{
 	ID:          "C10",
-	Rule:        "generated: event-time session windows (timeout 0.5-5 s, 1-3 keys, per-key gaps from {0,1ms,T/4,T/2,T-1,T,T+1,3T}, OOO 0/1 s with within-tolerance swaps, burst/paced/mixed feeding, flush row from another key). oracle: reference sessionizer invariants - every accepted event in exactly one session of its key, consecutive gaps inside a session <= timeout, accepted neighbours closer than the timeout share a session, window_start = earliest ts, window_end = latest + timeout, no early firing, burst == paced for in-order input. non-trivial = a key with a gap above the timeout or a reordered accepted row; distinct by case hash",
+	Rule:        "generated: event-time session windows (timeout 0.5-5 s, 1-3 keys, per-key gaps from {0,1ms,T/4,T/2,T-1,T,T+1,3T}, OOO 0 / 1 s / T/2 / 2T / 3T with within-tolerance swaps of neighbours or arbitrary within-tolerance displacements (arrival order = order of ts + jitter), burst/paced/mixed feeding, flush row from another key; 5% long bursts of 120-500 strictly increasing rows, most closing a session, then silence). oracle: reference sessionizer invariants - every accepted event in exactly one session of its key, consecutive gaps inside a session <= timeout, accepted neighbours closer than the timeout share a session, window_start = earliest ts, window_end = latest + timeout, no early firing, burst == paced for in-order input. non-trivial = a key with a gap above the timeout or a reordered accepted row; distinct by case hash",
 	Assumptions: []string{"input never dropped (block strategy)", "gap == timeout may or may not split", "late-on-arrival rows may be reported or not"},
 	Gen:         genCase,
 	Run:         runCase,
